@@ -11,7 +11,7 @@ BATCH-1 the batch system records what it sends
 import ast
 
 from sa.model import src, short, dotted, call_attr, kwarg, walk_local, AnalysisError, const_value, assigned_targets
-from sa.helpers import is_snapshot, batch_conservation
+from sa.helpers import is_snapshot, batch_conservation, early_exits, inloop_guards
 from sa.index import get_index
 from sa.units import Units, load_spec, MS, S, ABS
 
@@ -339,6 +339,7 @@ def check(chk):
     _split_symmetry(chk, repo)
     _direct_fade(chk, repo)
     _removal_always_removes(chk, repo)
+    _light_player(chk, repo)
 
     # ------------------------------------------------------------ BATCH-1
     g = repo.func(BL, "PlatformBatchLightSystem._send_update_batch")
@@ -811,6 +812,98 @@ def _removal_always_removes(chk, repo):
                f.where(cfg.nodes[r].ast), construct=f.ident, text="update after removal", path=cfg.fmt_path(w, f) if w else None)
 
 
+def _light_player(chk, repo):
+    """PLAYER-9: the light player sets and removes colours under one key per (context, key) and keeps a record of every colour it set.
+    play and _remove derive the stack key by the same expression; both walk every configured light (named lights / tags through the
+    *_named helper, light objects directly) without leaving the loop; the colour is set with the entry's fade and priority plus the
+    caller's; "stop" removes instead; every colour set is recorded under (key, light) and clear_context removes exactly the recorded
+    ones; a subscription plays when its condition holds and removes, under the same key, when it does not."""
+    LP = "mpf/config_players/light_player.py"
+    cls = repo.cls(LP, "LightPlayer")
+    play, rem, lc, lr, cc, hs = (cls.methods.get(k) for k in ("play", "_remove", "_light_color", "_light_remove", "clear_context", "handle_subscription_change"))
+    chk.need(all(x is not None for x in (play, rem, lc, lr, cc, hs)), "PLAYER-9", "LightPlayer has play / _remove / _light_color / _light_remove / clear_context", repo.func(LT, "Light.color"))
+    chk.analysed(play, rem, lc, lr, cc, hs, cls.methods["_light_named_color"], cls.methods["_light_remove_named"])
+
+    def full_ctx(f):
+        d = [x for x in walk_local(f.node) if isinstance(x, ast.Assign) and src(x.targets[0]) == "full_context"]
+        return src(d[0].value) if len(d) == 1 else None
+    kp = [x for x in walk_local(play.node) if isinstance(x, ast.Assign) and src(x.targets[0]) == "key"]
+    ok = full_ctx(play) == full_ctx(rem) == "self._get_full_context(context + key)" and len(kp) == 1 and src(kp[0].value).replace('"', "'") == "kwargs.get('key', '')"
+    chk.ob("PLAYER-9", "play and _remove address the light stacks under the same key expression (context + key)", ok, rem.where(),
+           detail="play: %s, _remove: %s" % (full_ctx(play), full_ctx(rem)), construct=rem.ident, text="light player key expression")
+    for f, named, direct in ((play, "_light_named_color", "_light_color"), (rem, "_light_remove_named", "_light_remove")):
+        cfg = f.cfg()
+        heads = [h for h in cfg.nodes if h.kind == "loop"]
+        outer = [h for h in heads if src(h.ast.iter) == "settings.items()"]
+        acts = [(n, c) for n, c in cfg.calls_named(named, direct)]
+        ok = len(outer) == 1 and not any(early_exits(cfg, h) for h in heads) and {call_attr(c) for _, c in acts} == {named, direct}
+        chk.ob("PLAYER-9", "%s visits every configured light (named or object) and never leaves the loops early" % f.qualname, ok, f.where(), construct=f.ident,
+               text="light player loop " + f.name)
+        for n, c in acts:
+            a = [src(x) for x in c.args]
+            want_tail = ["instance_dict", "full_context"]
+            q = [x.replace('"', "'") for x in a]
+            tail = ["s['color']", "s['fade']", "final_priority", "start_time"] if f is play else ["s['fade']"]
+            ok = q[0] in ("light", "light_name") and q[1:3] == want_tail and q[3:] == tail
+            chk.ob("PLAYER-9", "%s hands the entry's own colour / fade, the summed priority and the key on" % f.qualname, ok, f.where(c), detail=str(a),
+                   construct=f.ident, text="light player arguments " + call_attr(c))
+    pcfg = play.cfg()
+    fp = [n for n in pcfg.nodes if n.kind == "stmt" and isinstance(n.ast, (ast.Assign, ast.AugAssign)) and src(n.ast.targets[0] if isinstance(n.ast, ast.Assign) else n.ast.target) == "final_priority"]
+    txt = " ".join(src(n.ast).replace('"', "'") for n in fp)
+    ok = "s['priority']" in txt and ("+= priority" in txt or "+ priority" in txt)
+    chk.ob("PLAYER-9", "a colour's priority is the entry's priority plus the caller's", ok, play.where(), detail=txt, construct=play.ident, text="light player priority sum")
+    # _light_color
+    lcfg = lc.cfg()
+    col = [(n, c) for n, c in lcfg.calls_named("color") if src(c.func.value) == "light"]
+    chk.need(len(col) == 1, "PLAYER-9", "_light_color sets the colour on the light", lc)
+    cn, ccall = col[0]
+    kw = {k.arg: src(k.value) for k in ccall.keywords}
+    ok = [src(a) for a in ccall.args] == ["color"] and kw == {"key": "full_context", "fade_ms": "fade_ms", "priority": "priority", "start_time": "start_time"}
+    chk.ob("PLAYER-9", "the colour is set under the key with the given fade, priority and start time", ok, lc.where(ccall), detail=str(kw), construct=lc.ident,
+           text="light.color arguments")
+    rec = [n for n in lcfg.nodes if n.kind == "stmt" and isinstance(n.ast, ast.Assign) and src(n.ast.targets[0]) == "instance_dict[full_context, light]"
+           or n.kind == "stmt" and isinstance(n.ast, ast.Assign) and src(n.ast.targets[0]).replace(" ", "") == "instance_dict[(full_context,light)]"]
+    w = lcfg.must_pass(cn.id, [n.id for n in rec]) if rec else [cn.id]
+    chk.ob("PLAYER-9", "every colour set is recorded under (key, light) (clear_context removes what is recorded, nothing else)", w is None, lc.where(ccall),
+           construct=lc.ident, text="light player record", path=lcfg.fmt_path(w, lc) if w and len(w) > 1 else None)
+    stop = [(n, c) for n, c in lcfg.calls_named("_light_remove")]
+    from sa.cfg import canon_set as _cs
+    ok = len(stop) == 1 and [src(a) for a in stop[0][1].args] == ["light", "instance_dict", "full_context", "fade_ms"] and \
+        any("'stop'" in k.replace('"', "'") and v is True for k, v in lcfg.guards_at(stop[0][0].id).items()) and \
+        lcfg.path_avoiding(stop[0][0].id, [cn.id], [], ignore_exc=True) is None
+    chk.ob("PLAYER-9", "the colour `stop` removes the key from the light (with the entry's fade) and sets nothing", ok, lc.where(), construct=lc.ident, text="light player stop")
+    # _light_remove
+    rcalls = [c for c in lr.calls() if call_attr(c) == "remove_from_stack_by_key"]
+    dels = [x for x in walk_local(lr.node) if isinstance(x, ast.Delete)]
+    ok = len(rcalls) == 1 and [src(a) for a in rcalls[0].args] == ["full_context", "fade_ms"] and src(rcalls[0].func.value) == "light" and \
+        len(dels) == 1 and src(dels[0].targets[0]).replace(" ", "") in ("instance_dict[full_context,light]", "instance_dict[(full_context,light)]")
+    chk.ob("PLAYER-9", "_light_remove removes the key from the light with the given fade and forgets the record of exactly that (key, light)", ok, lr.where(),
+           construct=lr.ident, text="light player remove")
+    # clear_context
+    ccfg = cc.cfg()
+    heads = [h for h in ccfg.nodes if h.kind == "loop"]
+    rmc = [(n, c) for n, c in ccfg.calls_named("remove_from_stack_by_key")]
+    rst = [n.id for n, c in ccfg.calls_named("_reset_instance_dict")]
+    ok = len(heads) == 1 and "_get_instance_dict(context)" in src(heads[0].ast.iter) and src(heads[0].ast.iter).endswith(".items()") and len(rmc) == 1 and \
+        not early_exits(ccfg, heads[0]) and not inloop_guards(ccfg, rmc[0][0].id, heads[0].id) and bool(rst) and ccfg.must_pass(ccfg.entry.id, rst) is None
+    if ok:
+        tgt = heads[0].ast.target
+        ok = isinstance(tgt, ast.Tuple) and isinstance(tgt.elts[0], ast.Tuple) and src(rmc[0][1].func.value) == src(tgt.elts[1]) and \
+            [src(a) for a in rmc[0][1].args][:1] == [src(tgt.elts[0].elts[0])]
+    chk.ob("PLAYER-9", "clear_context removes every recorded colour from its light under its recorded key, then forgets the records", ok, cc.where(), construct=cc.ident,
+           text="light player clear_context")
+    # subscriptions
+    hcfg = hs.cfg()
+    pl = [(n, c) for n, c in hcfg.calls_named("play")]
+    rm_ = [(n, c) for n, c in hcfg.calls_named("_remove")]
+    ok = len(pl) == 1 and len(rm_) == 1 and hcfg.guards_at(pl[0][0].id).get("value") is True and hcfg.guards_at(rm_[0][0].id).get("value") is False and \
+        kwarg(pl[0][1], "key") is not None and kwarg(rm_[0][1], "key") is not None and src(kwarg(pl[0][1], "key")) == src(kwarg(rm_[0][1], "key")) == "key" and \
+        [src(a) for a in pl[0][1].args][:2] == [src(a) for a in rm_[0][1].args][:2] == ["settings", "context"]
+    chk.ob("PLAYER-9", "a conditional light entry is played while its condition holds and removed, under the same context and key, when it does not", ok, hs.where(),
+           construct=hs.ident, text="light player subscription")
+    chk.floor("PLAYER-9", 12)
+
+
 def scan_exits_only_at_key(chk, rule, g, gcfg, h, name):
     """Every early exit (break / return) of a stack scan is taken at the key, so the entry with that key is always found."""
     for n in gcfg.nodes_where(lambda n: n.kind == "stmt" and isinstance(n.ast, (ast.Break, ast.Return))):
@@ -826,6 +919,15 @@ def scan_exits_only_at_key(chk, rule, g, gcfg, h, name):
 def battery():
     from sa.battery import M
     return [
+        M("light player removes under the bare context", "mpf/config_players/light_player.py", "    def _remove(self, settings, context, key=\"\"):\n        instance_dict = self._get_instance_dict(context)\n        full_context = self._get_full_context(context + key)", "    def _remove(self, settings, context, key=\"\"):\n        instance_dict = self._get_instance_dict(context)\n        full_context = self._get_full_context(context)", "PLAYER-9"),
+        M("light player stops at the first unreplaced placeholder", "mpf/config_players/light_player.py", "                    if not light_name or light_name[0:1] == \"(\" and light_name[-1:] == \")\":\n                        continue", "                    if not light_name or light_name[0:1] == \"(\" and light_name[-1:] == \")\":\n                        break", "PLAYER-9"),
+        M("light player ignores the caller's priority", "mpf/config_players/light_player.py", "                final_priority += priority", "                final_priority += 0", "PLAYER-9"),
+        M("colour set without a record", "mpf/config_players/light_player.py", "        instance_dict[(full_context, light)] = light\n", "        if fade_ms:\n            instance_dict[(full_context, light)] = light\n", "PLAYER-9"),
+        M("stop colour ignores the fade", "mpf/config_players/light_player.py", "            self._light_remove(light, instance_dict, full_context, fade_ms)\n            return", "            self._light_remove(light, instance_dict, full_context, None)\n            return", "PLAYER-9"),
+        M("clear_context keeps the records", "mpf/config_players/light_player.py", "            light.remove_from_stack_by_key(full_context)\n\n        self._reset_instance_dict(context)", "            light.remove_from_stack_by_key(full_context)\n", "PLAYER-9"),
+        M("conditional light removed without its key", "mpf/config_players/light_player.py", "            self._remove(settings, context, key=key)", "            self._remove(settings, context)", ("PLAYER-9", "DROP-0")),
+        M("removal of a light forgets the fade", "mpf/config_players/light_player.py", "        light.remove_from_stack_by_key(full_context, fade_ms)", "        light.remove_from_stack_by_key(full_context)", ("PLAYER-9", "DROP-0")),
+        M("twin: light player priority summed in one expression", "mpf/config_players/light_player.py", "            final_priority = s[\"priority\"]\n            try:\n                final_priority += priority\n            except KeyError:\n                final_priority = priority", "            final_priority = s[\"priority\"] + priority", None),
         M("second removal during the fade-out ignored", LT, "        if stack[0].dest_color is None:\n            fade_ms = None\n", "        if stack[0].dest_color is None:\n            return\n", "REMOVE-9"),
         M("brightness subscription dropped when nothing changed", "mpf/core/light_controller.py", "        self.brightness_factor, future = self._brightness_template.evaluate_and_subscribe([])\n        future.add_done_callback(self._update_brightness)", "        factor, future = self._brightness_template.evaluate_and_subscribe([])\n        if factor == self.brightness_factor:\n            return\n        self.brightness_factor = factor\n        future.add_done_callback(self._update_brightness)", "REARM-0"),
         M("twin: brightness subscription renewed before the comparison", "mpf/core/light_controller.py", "        self.brightness_factor, future = self._brightness_template.evaluate_and_subscribe([])\n        future.add_done_callback(self._update_brightness)", "        factor, future = self._brightness_template.evaluate_and_subscribe([])\n        future.add_done_callback(self._update_brightness)\n        if factor == self.brightness_factor:\n            return\n        self.brightness_factor = factor", None),
